@@ -476,8 +476,10 @@ feederLoop:
 				continue feederLoop
 			case child.messages <- msg:
 				firstAttempt = true
+				verifPoint("feeder.handoff", child.topic, child.partition, msg.Offset)
 			case <-expiryTicker.C:
 				if !firstAttempt {
+					verifPoint("feeder.expiry", child.topic, child.partition, msg.Offset)
 					child.responseResult = errTimedOut
 					child.broker.acks.Done()
 				remainingLoop:
